@@ -1,3 +1,5 @@
+import Unimock.Generated.Control
+import Unimock.Lemmas.Gates
 import Unimock.Model.Lifecycle
 /-!
 # C09 — only the original instance verifies: once, on its thread, with no clones alive
@@ -99,5 +101,89 @@ example :
     teardownVerdict w { sh := 0, original := true } 0 false = .panicClones ∧
     teardownVerdict (w.free 1) { sh := 0, original := true } 0 false = .ok ∧
     teardownVerdict (w.free 1) { sh := 0, original := true } 1 false = .panicThread := by decide
+
+
+/-! ### the teardown / drop / verify statement sequences as the source has them (`Generated/Control.lean`) -/
+
+/-- the re-translated statement list of `teardown::teardown`, interpreted, equals the model's decision on every one of the
+    256 observations (which flags it leaves behind included) -/
+theorem C09_source_teardown_sequence :
+    ∀ o : Gates.Obs, Gates.run Generated.teardownSteps o {} = Gates.specVerdict o := by
+  intro ⟨a, b, c, d, e, f, g, h⟩
+  cases a <;> cases b <;> cases c <;> cases d <;> cases e <;> cases f <;> cases g <;> cases h <;> rfl
+
+/-- hence the model's `teardown` is the source's statement list run on what the instance can observe -/
+theorem C09_source_teardown {α ρ} (w : World α ρ) (i : Nat) (x : Inst) (t : Nat) (p : Bool) :
+    (teardownInst w i x t p).2 =
+      concretise (w.setInst i { x with tornDown := true, helper := 0, parked := 0 })
+        { x with tornDown := true, helper := 0, parked := 0 }
+        (Gates.run Generated.teardownSteps (obsInst w i x t p) {}).1 ∧
+    (teardownInst w i x t p).1 =
+      w.setInst i (applyFlags x (Gates.run Generated.teardownSteps (obsInst w i x t p) {}).snd) := by
+  rw [C09_source_teardown_sequence]
+  exact ⟨teardownInst_eq_spec w i x t p, teardownInst_flags w i x t p⟩
+
+/-- a clone's teardown is silent, whatever else is observed — read off the source's own statement order -/
+theorem C09_source_clone_silent (o : Gates.Obs) (h : o.original = false) :
+    (Gates.run Generated.teardownSteps o {}).1 = .ok := by
+  rw [C09_source_teardown_sequence]; simp [Gates.specVerdict, h]
+
+/-- the original, not unwinding, with any other holder of the shared state alive — or its own helper / parked clone, had
+    they not been released first — panics; the source releases both before counting -/
+theorem C09_source_live_clone_panics (o : Gates.Obs) (h : o.original = true) (hp : o.panicking = false) :
+    (Gates.run Generated.teardownSteps o {}).1 = .panicClones ↔ o.others = true := by
+  rw [C09_source_teardown_sequence]
+  obtain ⟨a, b, c, d, e, f, g, k⟩ := o
+  simp only at h hp; subst h hp
+  cases c <;> cases f <;> cases g <;> cases k <;> simp [Gates.specVerdict]
+
+theorem C09_source_drop : ∀ f : Gates.IFlags, Gates.runD Generated.dropSteps f = Gates.specDrop f := by
+  intro ⟨a, b, c⟩; cases a <;> cases b <;> cases c <;> rfl
+
+theorem C09_source_verify : ∀ f : Gates.IFlags, Gates.runD Generated.verifySteps f = Gates.specVerify f := by
+  intro ⟨a, b, c⟩; cases a <;> cases b <;> cases c <;> rfl
+
+theorem C09_source_no_verify : ∀ f : Gates.IFlags, Gates.runD Generated.noVerifySteps f = Gates.specNoVerify f := by
+  intro ⟨a, b, c⟩; cases a <;> cases b <;> cases c <;> rfl
+
+/-- `impl Drop`, `verify()`, `no_verify_in_drop()` of the model are the source's gate sequences -/
+theorem C09_source_drop_impl {α ρ} (w : World α ρ) (i t : Nat) (p : Bool) (x : Inst) (h : w.inst? i = some x) :
+    dropInst w i t p =
+      match Gates.runD Generated.dropSteps (iflags x) with
+      | .teardown => ((teardownInst w i x t p).1.free i, (teardownInst w i x t p).2)
+      | _ => (w.free i, .ok) := by
+  rw [C09_source_drop]; exact dropInst_eq_spec w i t p x h
+
+theorem C09_source_verify_impl {α ρ} (env : Env α ρ) (w : World α ρ) (i t : Nat) (x : Inst)
+    (h : w.inst? i = some x) (ha : x.alive = true) :
+    Unimock.step env w (.verify i t) =
+      match Gates.runD Generated.verifySteps (iflags x) with
+      | .panicNotOriginal => ((dropInst w i t true).1, Outcome.panicOnClone)
+      | _ => ((teardownInst w i x t false).1.free i, Outcome.teardown (teardownInst w i x t false).2) := by
+  rw [C09_source_verify]; exact step_verify_eq_spec env w i t x h ha
+
+theorem C09_source_no_verify_impl {α ρ} (env : Env α ρ) (w : World α ρ) (i t : Nat) (x : Inst)
+    (h : w.inst? i = some x) (ha : x.alive = true) :
+    Unimock.step env w (.noVerify i t) =
+      match Gates.runD Generated.noVerifySteps (iflags x) with
+      | .panicNotOriginal => ((dropInst w i t true).1, Outcome.panicOnClone)
+      | _ => (w.setInst i { x with verifyInDrop := false }, Outcome.ok) := by
+  rw [C09_source_no_verify]; exact step_noVerify_eq_spec env w i t x h ha
+
+/-- the lifecycle flags a new mock and a clone start with, as the source's struct literals have them -/
+theorem C09_source_initial_flags :
+    Generated.newFlags = ⟨true, false, true⟩ ∧ ∀ f : Gates.IFlags, Generated.cloneFlags f = ⟨false, false, f.verifyInDrop⟩ := by
+  exact ⟨rfl, fun _ => rfl⟩
+
+theorem C09_source_clone_inst {α ρ} (env : Env α ρ) (w : World α ρ) (i j : Nat) (x : Inst)
+    (h : w.inst? i = some x) (ha : x.alive = true) :
+    ∃ y, (Unimock.step env w (.clone i j)).1 = w.setInst j y ∧ iflags y = Generated.cloneFlags (iflags x) ∧ y.sh = x.sh := by
+  refine ⟨{ sh := x.sh, original := false, verifyInDrop := x.verifyInDrop }, ?_, ?_, rfl⟩
+  · simp [Unimock.step, h, ha]
+  · rw [C09_source_initial_flags.2]; rfl
+
+/-- non-vacuity: an original with a live clone, not unwinding, on its own thread -/
+example : (Gates.run Generated.teardownSteps ⟨true, false, true, true, true, false, true, true⟩ {}).1 = .panicClones ∧
+    (Gates.run Generated.teardownSteps ⟨true, false, false, true, true, false, false, true⟩ {}).1 = .errsVerify := by decide
 
 end Unimock
